@@ -94,31 +94,32 @@ pub struct HavokSplineCompressedAnimation {
 }
 
 impl HavokSplineCompressedAnimation {
-    pub fn new(object: Arc<RefCell<HavokObject>>) -> Self {
+    /// `None` when the object does not have the members of a `hkaSplineCompressedAnimation`.
+    pub fn new(object: Arc<RefCell<HavokObject>>) -> Option<Self> {
         let root = object.borrow();
 
-        let duration = root.get("duration").as_real();
-        let number_of_transform_tracks = root.get("numberOfTransformTracks").as_int() as usize;
-        let num_frames = root.get("numFrames").as_int() as usize;
-        let num_blocks = root.get("numBlocks").as_int() as usize;
-        let max_frames_per_block = root.get("maxFramesPerBlock").as_int() as usize;
-        let mask_and_quantization_size = root.get("maskAndQuantizationSize").as_int() as u32;
-        let block_inverse_duration = root.get("blockInverseDuration").as_real();
-        let frame_duration = root.get("frameDuration").as_real();
+        let duration = root.get("duration")?.as_real()?;
+        let number_of_transform_tracks = root.get("numberOfTransformTracks")?.as_int()? as usize;
+        let num_frames = root.get("numFrames")?.as_int()? as usize;
+        let num_blocks = root.get("numBlocks")?.as_int()? as usize;
+        let max_frames_per_block = root.get("maxFramesPerBlock")?.as_int()? as usize;
+        let mask_and_quantization_size = root.get("maskAndQuantizationSize")?.as_int()? as u32;
+        let block_inverse_duration = root.get("blockInverseDuration")?.as_real()?;
+        let frame_duration = root.get("frameDuration")?.as_real()?;
 
-        let raw_block_offsets = root.get("blockOffsets").as_array();
+        let raw_block_offsets = root.get("blockOffsets")?.as_array()?;
         let block_offsets = raw_block_offsets
             .iter()
-            .map(|x| x.as_int() as u32)
-            .collect::<Vec<_>>();
+            .map(|x| Some(x.as_int()? as u32))
+            .collect::<Option<Vec<_>>>()?;
 
-        let raw_data = root.get("data").as_array();
+        let raw_data = root.get("data")?.as_array()?;
         let data = raw_data
             .iter()
-            .map(|x| x.as_int() as u8)
-            .collect::<Vec<_>>();
+            .map(|x| Some(x.as_int()? as u8))
+            .collect::<Option<Vec<_>>>()?;
 
-        Self {
+        Some(Self {
             duration,
             number_of_transform_tracks,
             num_frames,
@@ -129,7 +130,7 @@ impl HavokSplineCompressedAnimation {
             frame_duration,
             block_offsets,
             data,
-        }
+        })
     }
 
     fn get_block_and_time(&self, frame: usize, delta: f32) -> (usize, f32, u8) {
